@@ -12,6 +12,7 @@ QUICK_RUNS = 16000
 THOROUGH_MIN_RUNS = 60000
 BATCH = 100
 CASE_WALL_S = 60.0
+ISOLATE = True      # every run in a forked child: no interpreter state leaks from one simulated server to the next
 RULE = ("three case families.  worker (W3): the real SyncWorker / ThreadWorker process with 1-2 clients driven into a phase "
         "{accepted-idle, head partly received, application running, response partly written, keep-alive idle}; TERM (or QUIT/INT) "
         "is delivered at a seeded simulated time or at a seeded system-call index of the worker's main thread inside that phase; "
